@@ -562,14 +562,23 @@ impl<'a, 'b, R: FileManager> TypeModuleWalker<'a, R, AddressedType> for TypeWalk
                 decl,
                 original_file,
                 span,
-            } => Ok(AddressedType::Interface {
-                t: decl.clone(),
-                local_address: TypeAddress {
-                    file: original_file.clone(),
-                    name: decl.id.sym.to_string(),
-                },
-                declaration_span: *span,
-            }),
+            } => {
+                // the module's table of local declarations holds the interface with all its
+                // declarations merged; the export entry holds the one that carries `export`
+                let merged = self
+                    .ctx
+                    .get_or_fetch_file(original_file, anchor)
+                    .ok()
+                    .and_then(|m| m.locals.interfaces.get(&decl.id.sym.to_string()).cloned());
+                Ok(AddressedType::Interface {
+                    t: merged.unwrap_or_else(|| decl.clone()),
+                    local_address: TypeAddress {
+                        file: original_file.clone(),
+                        name: decl.id.sym.to_string(),
+                    },
+                    declaration_span: *span,
+                })
+            }
             SymbolExport::TsEnumDecl {
                 decl,
                 original_file,
